@@ -249,7 +249,7 @@ HOSTILE_FMT = [b'"q"', b"a:b", b"a: b", b"#c", b"a #c", b"back\\slash", b"y", b"
                b"!t", b"%p", b"@a", b"`b", b"x" * 300, "  ".encode(), "퟿".encode(), b"'", b'"',
                b"a\\nb", b"\\", b" lead", b"trail ", b"1", b"-1", b"1.5", b".inf", b"2001-01-01", b"=", b"a=b", b"[[t]]"]
 HOSTILE_FS = [b".", b"..", b"a/b", b"/abs", b"a/", b"../x", b"../../esc", b"x" * 256, b"x" * 255, b"./a", b"a/../b",
-              b"\xff", b"nul\x00", b"..."]
+              b"\xff", b"nul\x00", b"...", b"/", b"//", b"./", b"../", b"/.", b"a//b", b". ", b" .", b".. "]
 
 POOLS = {
     "ascii": ASCII_WORDS,
